@@ -32,6 +32,10 @@ class _PythonPrinter(PythonCodePrinter):
         # sympy prints -x * Mod(y, z) as "-x*y % z", which Python reads as (-x*y) % z
         return f"({super()._print_Mod(expr)})"
 
+    def _print_Float(self, expr: sympy.Float) -> str:
+        # sympy prints 15 significant digits, which is not always the same number
+        return repr(float(expr))
+
 
 def _pycode(expr: sympy.Expr, **settings: bool) -> str:
     """Convert a sympy expression to Python code."""
